@@ -903,7 +903,7 @@ def _run(ctx, pool, rng, quick):
     if quick:
         jobs.append(pair_job("MCPair", 1, 2, ["F32", "U8", "RGBA"], ["npy"], [(1, 2), (2, 0)], 2))
     else:
-        jobs.append(pair_job("MCPair", 1, 2, MODES, ["npy", "png"], [(1, 2), (2, 0), (2, 1), (0, 1)], 4))
+        jobs.append(pair_job("MCPair", 1, 2, MODES, ["npy", "png"], [(1, 2), (2, 0), (2, 1)], 4))
     done = start_tlc_jobs(ctx, jobs, timeout=6000)
     # ---- as the TLC jobs finish: tables to files, replay tasks to the pool
     pending = []
